@@ -731,7 +731,12 @@ class Interp:
         hook = self.ctx.config.get("while_hook")
         if hook:
             return hook(self, node, st)
-        raise OutOfSubset("while loop without an invariant")
+        from .loops import loop_ordinal, run_while
+        invs = self.ctx.config.get("while_invs") or {}
+        inv = invs.get((st.unit.key, loop_ordinal(st.unit, node)))
+        if inv is None:
+            raise OutOfSubset("while loop without an invariant in %s" % st.unit.key)
+        return run_while(self, node, st, inv)
 
     def iterspec(self, st, it):
         """-> [(state, IterSpec | Raised)]"""
